@@ -1,8 +1,1739 @@
-//! C06 — monitor not built yet.
+//! C06 — a stream subscriber sees every frame exactly once, in order.
+//!
+//! Observed: the bytes of `GET /sessions/{id}/events`, `/tasks/{id}/events`, `/threads/{id}/events`
+//! served by the real router, parsed back into frames, per subscriber, compared with the truth log.
+//!
+//! Phases
+//!  A. driven joins (fault_enumeration): for every frame k of a producer and every placement of the
+//!     subscriber's two steps (subscribe, snapshot) relative to the producer's steps of frame k the
+//!     rendezvous rules of `sched` park one side at its hook until the other passed the chosen hook.
+//!  B. stress: 1–32 subscribers attach at random instants to sessions / tasks / threads that are
+//!     producing, with seeded noise at the emit / stream hook points.
+//!  C. burst: a producer emits more frames than the broadcast channel holds (16 384) while a
+//!     subscriber does not read; then the subscriber reads everything it is given.
+
+use crate::fixture::{runtime, wait_for, App, Store};
+use crate::prng::Rng;
 use crate::report::{Cfg, Report};
+use crate::sched::{sched, Ev, ParkRule, Sched};
+use crate::truth;
+use serde_json::{json, Value};
+use std::collections::{BTreeMap, BTreeSet, HashMap};
+use std::sync::atomic::{AtomicBool, AtomicU64, Ordering};
+use std::sync::Arc;
+use std::time::{Duration, Instant};
+
+const QS: &str = "server.stream.subscribed";
+const QN: &str = "server.stream.snapshotted";
+const DONE_POINT: &str = "rv.c06.producer_done";
+const CHANNEL_CAPACITY: u64 = 16_384;
+
+#[derive(Clone, Copy, Debug, PartialEq, Eq, Hash, PartialOrd, Ord)]
+pub enum Kind {
+    Session,
+    Task,
+    Thread,
+}
+
+impl Kind {
+    fn name(&self) -> &'static str {
+        match self {
+            Kind::Session => "session",
+            Kind::Task => "task",
+            Kind::Thread => "thread",
+        }
+    }
+    fn log_kind(&self) -> &'static str {
+        match self {
+            Kind::Session => "session",
+            Kind::Task => "task",
+            Kind::Thread => "continuity",
+        }
+    }
+    fn path(&self, id: &str) -> String {
+        match self {
+            Kind::Session => format!("/sessions/{id}/events"),
+            Kind::Task => format!("/tasks/{id}/events"),
+            Kind::Thread => format!("/threads/{id}/events"),
+        }
+    }
+}
+
+// ---------------------------------------------------------------------------------------------
+// heartbeat: a hook that parks (or sleeps in) a tokio worker can leave the runtime's I/O + timer
+// driver unattended (the worker that held it is the one now blocked, the others sleep on condvars);
+// timers of the orchestration would then stall until the parked thread is released. A plain thread
+// that injects an empty task every 300 µs makes some idle worker wake up, run it and park again on
+// the driver, so timers keep firing.
+
+pub struct Heartbeat {
+    stop: Arc<AtomicBool>,
+    th: Option<std::thread::JoinHandle<()>>,
+}
+
+impl Heartbeat {
+    pub fn start(h: tokio::runtime::Handle) -> Heartbeat {
+        let stop = Arc::new(AtomicBool::new(false));
+        let st = stop.clone();
+        let th = std::thread::spawn(move || {
+            while !st.load(Ordering::Relaxed) {
+                let _ = h.spawn(async {});
+                std::thread::sleep(Duration::from_micros(300));
+            }
+        });
+        Heartbeat { stop, th: Some(th) }
+    }
+}
+
+impl Drop for Heartbeat {
+    fn drop(&mut self) {
+        self.stop.store(true, Ordering::Relaxed);
+        if let Some(t) = self.th.take() {
+            let _ = t.join();
+        }
+    }
+}
+
+// ---------------------------------------------------------------------------------------------
+// subscriber
+
+pub struct SubCtl {
+    /// producers of the stream are quiescent and `final_seq` is valid
+    pub done: AtomicBool,
+    /// last seq of the stream in the log (valid once `done`)
+    pub final_seq: AtomicU64,
+    /// the GET returned its response head (the handler ran: subscribed + snapshotted)
+    pub joined: AtomicBool,
+    /// while set the subscriber does not poll the body at all (slow reader)
+    pub pause: AtomicBool,
+    pub grace_ms: u64,
+}
+
+impl SubCtl {
+    pub fn new(grace_ms: u64) -> Arc<SubCtl> {
+        Arc::new(SubCtl {
+            done: AtomicBool::new(false),
+            final_seq: AtomicU64::new(u64::MAX),
+            joined: AtomicBool::new(false),
+            pause: AtomicBool::new(false),
+            grace_ms,
+        })
+    }
+    fn finish(&self, final_seq: Option<u64>) {
+        self.final_seq.store(final_seq.unwrap_or(u64::MAX), Ordering::SeqCst);
+        self.done.store(true, Ordering::SeqCst);
+    }
+}
+
+#[derive(Debug, Default)]
+pub struct SubOut {
+    pub status: u16,
+    pub frames: Vec<Value>,
+    pub malformed: Vec<String>,
+    pub raw_bytes: u64,
+    pub reached_final: bool,
+}
+
+pub async fn subscribe_and_read(app: App, kind: Kind, id: String, ctl: Arc<SubCtl>) -> SubOut {
+    let mut out = SubOut::default();
+    let (status, rd) = app.sse(&kind.path(&id)).await;
+    out.status = status;
+    ctl.joined.store(true, Ordering::SeqCst);
+    let Some(mut rd) = rd else {
+        return out;
+    };
+    let start = Instant::now();
+    let mut last_progress = Instant::now();
+    let mut max_seq: Option<u64> = None;
+    let mut done_seen_at: Option<Instant> = None;
+    loop {
+        if ctl.pause.load(Ordering::SeqCst) {
+            tokio::time::sleep(Duration::from_millis(2)).await;
+            last_progress = Instant::now();
+            if start.elapsed() > Duration::from_secs(120) {
+                break;
+            }
+            continue;
+        }
+        let done = ctl.done.load(Ordering::SeqCst);
+        if done {
+            if done_seen_at.is_none() {
+                done_seen_at = Some(Instant::now());
+            }
+            let fin = ctl.final_seq.load(Ordering::SeqCst);
+            if fin != u64::MAX && max_seq.map(|m| m >= fin).unwrap_or(false) {
+                out.reached_final = true;
+                // anything delivered after the last frame of the stream would be a repeat
+                if let Some(d) = rd.next_data(Duration::from_millis(5)).await {
+                    push_frame(&mut out, &d, &mut max_seq);
+                }
+                break;
+            }
+        }
+        let t0 = Instant::now();
+        match rd.next_data(Duration::from_millis(6)).await {
+            Some(d) => {
+                push_frame(&mut out, &d, &mut max_seq);
+                last_progress = Instant::now();
+            }
+            None => {
+                if t0.elapsed() < Duration::from_millis(2) {
+                    // stream ended (not a timeout): do not spin
+                    tokio::time::sleep(Duration::from_millis(5)).await;
+                }
+                if let Some(ds) = done_seen_at {
+                    let grace = Duration::from_millis(ctl.grace_ms);
+                    if last_progress.elapsed() > grace && ds.elapsed() > grace {
+                        break;
+                    }
+                }
+                if start.elapsed() > Duration::from_secs(60) {
+                    break;
+                }
+            }
+        }
+    }
+    out.raw_bytes = rd.raw_bytes;
+    out
+}
+
+fn push_frame(out: &mut SubOut, data: &str, max_seq: &mut Option<u64>) {
+    match serde_json::from_str::<Value>(data) {
+        Ok(v) if v.is_object() => {
+            if let Some(s) = v.get("seq").and_then(|x| x.as_u64()) {
+                *max_seq = Some(max_seq.map(|m| m.max(s)).unwrap_or(s));
+            }
+            out.frames.push(v);
+        }
+        _ => {
+            if out.malformed.len() < 4 {
+                out.malformed.push(data.chars().take(200).collect());
+            }
+        }
+    }
+}
+
+// ---------------------------------------------------------------------------------------------
+// oracle: one subscriber's frames against the log's frames of that stream
+
+#[derive(Debug, Default, Clone)]
+pub struct Verdict {
+    pub received: usize,
+    pub max_seq: Option<u64>,
+    pub dup: Vec<u64>,
+    pub out_of_order: Vec<(u64, u64)>,
+    pub differs: Vec<u64>,
+    pub foreign: usize,
+    pub no_seq: usize,
+    pub not_in_log: Vec<u64>,
+    /// seqs below the highest delivered seq that were never delivered
+    pub lost: Vec<u64>,
+    /// frames of the log above the highest delivered seq (not delivered within the grace window)
+    pub tail_missing: u64,
+    pub log_len: usize,
+}
+
+impl Verdict {
+    fn clean(&self) -> bool {
+        self.dup.is_empty()
+            && self.out_of_order.is_empty()
+            && self.differs.is_empty()
+            && self.foreign == 0
+            && self.no_seq == 0
+            && self.not_in_log.is_empty()
+            && self.lost.is_empty()
+    }
+}
+
+/// `log` = frames of the stream from the truth log in seq order (seq i at index i).
+pub fn compare(id: &str, frames: &[Value], log: &[Value]) -> Verdict {
+    let mut v = Verdict {
+        received: frames.len(),
+        log_len: log.len(),
+        ..Default::default()
+    };
+    let mut seen: BTreeSet<u64> = BTreeSet::new();
+    let mut prev: Option<u64> = None;
+    for f in frames {
+        let sid = f
+            .get("stream_id")
+            .and_then(|x| x.as_str())
+            .or_else(|| f.get("session_id").and_then(|x| x.as_str()))
+            .unwrap_or("");
+        if sid != id {
+            v.foreign += 1;
+            continue;
+        }
+        let Some(seq) = f.get("seq").and_then(|x| x.as_u64()) else {
+            v.no_seq += 1;
+            continue;
+        };
+        if !seen.insert(seq) {
+            v.dup.push(seq);
+        } else if let Some(p) = prev {
+            if seq < p {
+                v.out_of_order.push((p, seq));
+            }
+        }
+        prev = Some(prev.map(|p| p.max(seq)).unwrap_or(seq));
+        match log.get(seq as usize) {
+            Some(l) => {
+                if !truth::json_eq_lenient(f, l) {
+                    v.differs.push(seq);
+                }
+            }
+            None => v.not_in_log.push(seq),
+        }
+    }
+    v.max_seq = seen.iter().next_back().copied();
+    if let Some(m) = v.max_seq {
+        for s in 0..m {
+            if !seen.contains(&s) {
+                v.lost.push(s);
+            }
+        }
+        v.tail_missing = (log.len() as u64).saturating_sub(m + 1);
+    } else {
+        v.tail_missing = log.len() as u64;
+    }
+    v
+}
+
+/// Frames of one stream from the log, in seq order; None when the log itself is not 0,1,2,… for
+/// that stream (then C06 cannot be judged against it — that is C01's business).
+pub fn log_stream(frames: &[truth::Frame], kind: Kind, id: &str) -> Option<Vec<Value>> {
+    let fs = truth::stream(frames, kind.log_kind(), id);
+    for (i, f) in fs.iter().enumerate() {
+        if f.seq() != i as u64 {
+            return None;
+        }
+    }
+    Some(fs.into_iter().map(|f| f.v.clone()).collect())
+}
+
+fn short(v: &[u64]) -> Vec<u64> {
+    v.iter().take(12).copied().collect()
+}
+
+/// Violations that do not depend on the phase (everything except loss). Returns true if any.
+fn report_common(r: &mut Report, kind: Kind, tag: &str, sub: &SubOut, v: &Verdict, witness: &Value) -> bool {
+    let mut any = false;
+    let k = kind.name();
+    if !sub.malformed.is_empty() {
+        r.violation(
+            &format!("C06/malformed_sse_payload/{k}/{tag}"),
+            &format!("{k} stream delivered a data payload that is not a JSON object: {:?}", sub.malformed),
+            witness.clone(),
+        );
+        any = true;
+    }
+    if !v.dup.is_empty() {
+        r.violation(
+            &format!("C06/duplicate_frame/{k}/{tag}"),
+            &format!("{k} stream delivered seq {:?} more than once to one subscriber", short(&v.dup)),
+            witness.clone(),
+        );
+        any = true;
+    }
+    if !v.out_of_order.is_empty() {
+        r.violation(
+            &format!("C06/out_of_order/{k}/{tag}"),
+            &format!("{k} stream delivered frames out of seq order: {:?}", &v.out_of_order[..v.out_of_order.len().min(6)]),
+            witness.clone(),
+        );
+        any = true;
+    }
+    if !v.differs.is_empty() {
+        r.violation(
+            &format!("C06/frame_differs_from_log/{k}/{tag}"),
+            &format!("{k} stream delivered frames that are not JSON-equal to the log's frame (seq {:?})", short(&v.differs)),
+            witness.clone(),
+        );
+        any = true;
+    }
+    if v.foreign > 0 || v.no_seq > 0 {
+        r.violation(
+            &format!("C06/foreign_frame/{k}/{tag}"),
+            &format!("{k} stream delivered {} frames of another stream and {} frames without seq", v.foreign, v.no_seq),
+            witness.clone(),
+        );
+        any = true;
+    }
+    if !v.not_in_log.is_empty() {
+        r.violation(
+            &format!("C06/frame_not_in_log/{k}/{tag}"),
+            &format!("{k} stream delivered seq {:?} which the quiescent log does not hold", short(&v.not_in_log)),
+            witness.clone(),
+        );
+        any = true;
+    }
+    any
+}
+
+// ---------------------------------------------------------------------------------------------
+// producers
+
+#[derive(Clone, Debug)]
+pub struct Variant {
+    pub kind: Kind,
+    pub name: String,
+    /// session: the input string; task: the bash command; thread: unused
+    pub text: String,
+    /// thread: number of appends
+    pub appends: usize,
+}
+
+fn bash_lines_session(m: usize) -> Variant {
+    let cmd = format!("for i in $(seq 1 {m}); do echo line$i; done");
+    Variant {
+        kind: Kind::Session,
+        name: format!("bash{m}"),
+        text: json!({"tool":"bash","args":{"command":cmd}}).to_string(),
+        appends: 0,
+    }
+}
+
+fn write_session() -> Variant {
+    Variant {
+        kind: Kind::Session,
+        name: "write".into(),
+        text: json!({"tool":"write","args":{"path":"c06.txt","content":"hello"}}).to_string(),
+        appends: 0,
+    }
+}
+
+fn task_lines(m: usize, sleep: &str) -> Variant {
+    Variant {
+        kind: Kind::Task,
+        name: format!("task{m}"),
+        text: format!("for i in $(seq 1 {m}); do echo out$i; sleep {sleep}; done"),
+        appends: 0,
+    }
+}
+
+fn thread_appends(m: usize) -> Variant {
+    Variant {
+        kind: Kind::Thread,
+        name: format!("appends{m}"),
+        text: String::new(),
+        appends: m,
+    }
+}
+
+/// One store + engine + router.
+struct World {
+    store: Store,
+    app: App,
+}
+
+impl World {
+    fn new() -> Result<World, String> {
+        let store = Store::new("c06");
+        let app = App::open(&store, None)?;
+        Ok(World { store, app })
+    }
+    fn log_frames(&self) -> Option<Vec<truth::Frame>> {
+        truth::parse_log(&self.store.log_bytes()).ok()
+    }
+    /// Frames of one stream (only lines mentioning the id are parsed; worlds are reused).
+    fn stream_log(&self, kind: Kind, id: &str) -> Option<Vec<Value>> {
+        stream_from_bytes(&self.store.log_bytes(), kind, id)
+    }
+}
+
+pub fn stream_from_bytes(bytes: &[u8], kind: Kind, id: &str) -> Option<Vec<Value>> {
+    let text = std::str::from_utf8(bytes).ok()?;
+    if !text.is_empty() && !text.ends_with('\n') {
+        return None;
+    }
+    let mut out = Vec::new();
+    for line in text.lines() {
+        if !line.contains(id) {
+            continue;
+        }
+        let v: Value = serde_json::from_str(line).ok()?;
+        if v.get("stream_kind").and_then(|x| x.as_str()) == Some(kind.log_kind())
+            && v.get("stream_id").and_then(|x| x.as_str()) == Some(id)
+        {
+            if v.get("seq").and_then(|x| x.as_u64()) != Some(out.len() as u64) {
+                return None;
+            }
+            out.push(v);
+        }
+    }
+    Some(out)
+}
+
+/// A producer that has been prepared (ids allocated where the API allows) but not started.
+struct Producer {
+    kind: Kind,
+    variant: Variant,
+    /// known before start for sessions and threads, after start for tasks
+    id: Option<String>,
+    blocking: Option<tokio::task::JoinHandle<()>>,
+}
+
+impl Producer {
+    async fn prepare(w: &World, variant: &Variant) -> Result<Producer, String> {
+        let id = match variant.kind {
+            Kind::Session => {
+                let (st, v) = w.app.json("POST", "/sessions", None).await;
+                if st != 201 {
+                    return Err(format!("POST /sessions -> {st}"));
+                }
+                Some(v["session_id"].as_str().unwrap_or("").to_string())
+            }
+            Kind::Task => None,
+            Kind::Thread => Some(w.app.store().ensure_default().map_err(|e| format!("ensure_default: {e}"))?),
+        };
+        Ok(Producer {
+            kind: variant.kind,
+            variant: variant.clone(),
+            id,
+            blocking: None,
+        })
+    }
+
+    async fn start(&mut self, w: &World) -> Result<String, String> {
+        match self.kind {
+            Kind::Session => {
+                let id = self.id.clone().unwrap();
+                let (st, _) = w
+                    .app
+                    .json("POST", &format!("/sessions/{id}/input"), Some(&json!({"input": self.variant.text})))
+                    .await;
+                if st != 202 {
+                    return Err(format!("POST input -> {st}"));
+                }
+                Ok(id)
+            }
+            Kind::Task => {
+                let (st, v) = w
+                    .app
+                    .json("POST", "/tasks", Some(&json!({"tool":"bash","args":{"command": self.variant.text}})))
+                    .await;
+                if st != 201 {
+                    return Err(format!("POST /tasks -> {st}"));
+                }
+                let id = v["task_id"].as_str().unwrap_or("").to_string();
+                self.id = Some(id.clone());
+                Ok(id)
+            }
+            Kind::Thread => {
+                let id = self.id.clone().unwrap();
+                let st = w.app.store();
+                let n = self.variant.appends;
+                let tid = id.clone();
+                self.blocking = Some(tokio::task::spawn_blocking(move || {
+                    for i in 0..n {
+                        let _ = st.append_message(&tid, "rv".into(), "c06".into(), format!("m{i}"));
+                    }
+                }));
+                Ok(id)
+            }
+        }
+    }
+
+    /// Wait until the producer emitted everything it will ever emit.
+    async fn quiescent(&mut self, w: &World, timeout: Duration) -> bool {
+        match self.kind {
+            Kind::Session | Kind::Task => {
+                let Some(id) = self.id.clone() else {
+                    return false;
+                };
+                let dir = if self.kind == Kind::Session { "snapshots" } else { "task_snapshots" };
+                let p = w.store.data.join(dir).join(format!("{id}.json"));
+                wait_for(timeout, || if p.exists() { Some(()) } else { None }).await.is_some()
+            }
+            Kind::Thread => match self.blocking.take() {
+                Some(h) => tokio::time::timeout(timeout, h).await.is_ok(),
+                None => true,
+            },
+        }
+    }
+}
+
+// ---------------------------------------------------------------------------------------------
+// calibration: frame count of a variant, order of the emitter's two hooks, which hooks are hit
+// while the lock that the snapshot needs is held
+
+#[derive(Clone, Debug)]
+pub struct Calib {
+    /// number of frames the producer emits (for threads: number of appends)
+    pub n: u64,
+    /// hooks of one emission in the order they are hit, with "snapshot is blocked while a thread is
+    /// parked here"
+    pub hooks: Vec<(&'static str, bool)>,
+}
+
+fn emit_hooks(kind: Kind) -> [&'static str; 2] {
+    match kind {
+        Kind::Session => ["session.emit.after_send", "session.emit.after_record"],
+        Kind::Task => ["task.emit.after_send", "task.emit.after_record"],
+        Kind::Thread => ["", ""],
+    }
+}
+
+async fn wait_fired(s: &Sched, at: &str, nth: u64, timeout: Duration) -> bool {
+    wait_for(timeout, || {
+        if s.rules().iter().any(|r| r.at == at && r.nth == nth && r.fired) {
+            Some(())
+        } else {
+            None
+        }
+    })
+    .await
+    .is_some()
+}
+
+async fn calibrate(s: &Arc<Sched>, variant: &Variant) -> Result<Calib, String> {
+    if variant.kind == Kind::Thread {
+        return Ok(Calib {
+            n: variant.appends as u64,
+            hooks: vec![
+                ("log.append.enter", false),
+                ("log.append.after_flush", false),
+                ("cont.cache.exit", false),
+            ],
+        });
+    }
+    let names = emit_hooks(variant.kind);
+    // 1. plain run: frame count and hook order
+    s.reset();
+    s.record(true, &["session.emit.*", "task.emit.*"]);
+    let w = World::new()?;
+    let mut p = Producer::prepare(&w, variant).await?;
+    let id = p.start(&w).await?;
+    if !p.quiescent(&w, Duration::from_secs(10)).await {
+        return Err(format!("calibration producer {} did not finish", variant.name));
+    }
+    let ev = s.take_events();
+    let mine: Vec<&Ev> = ev.iter().filter(|e| e.ctx.starts_with(&id)).collect();
+    let n = mine.iter().filter(|e| e.point == names[0]).count() as u64;
+    let first = mine.iter().find(|e| e.ctx == format!("{id} 0")).map(|e| e.point);
+    let order: [&'static str; 2] = match first {
+        Some(p) if p == names[1] => [names[1], names[0]],
+        Some(_) => [names[0], names[1]],
+        None => return Err("calibration saw no emit hook".into()),
+    };
+    let logn = w
+        .log_frames()
+        .and_then(|f| log_stream(&f, variant.kind, &id))
+        .map(|l| l.len() as u64)
+        .unwrap_or(0);
+    if logn != n || n < 3 {
+        return Err(format!("calibration: {n} emit hooks but {logn} log frames"));
+    }
+    drop(w);
+    // 2. probe: is the snapshot blocked while the producer is parked at hook h?
+    let mut hooks = Vec::new();
+    for h in order {
+        s.reset();
+        let w = World::new()?;
+        let mut p = Producer::prepare(&w, variant).await?;
+        let mut rule = ParkRule::new(h, "", 2, QN, "", 1);
+        rule.timeout_ms = 250;
+        s.add_rule(rule);
+        let id = p.start(&w).await?;
+        if !wait_fired(s, h, 2, Duration::from_secs(5)).await {
+            s.release_all();
+            return Err(format!("probe: hook {h} never reached"));
+        }
+        let ctl = SubCtl::new(50);
+        let sub = tokio::spawn(subscribe_and_read(w.app.clone(), variant.kind, id.clone(), ctl.clone()));
+        let _ = p.quiescent(&w, Duration::from_secs(10)).await;
+        ctl.finish(None);
+        let _ = sub.await;
+        let held = s.rules().iter().any(|r| r.at == h && r.timed_out);
+        s.release_all();
+        hooks.push((h, held));
+    }
+    s.reset();
+    Ok(Calib { n, hooks })
+}
+
+// ---------------------------------------------------------------------------------------------
+// driven joins
+
+#[derive(Clone, Debug)]
+pub struct Driven {
+    pub variant: usize,
+    /// index of the frame among the producer's own emissions (0-based)
+    pub k: u64,
+    /// position of the subscribe step / of the snapshot step (see `positions`)
+    pub sub: u8,
+    pub snap: u8,
+}
+
+#[derive(Clone, Debug, PartialEq)]
+enum Anchor {
+    /// park the producer at the nth hit of `at`; `held` = the snapshot cannot run while parked here
+    Hook { at: &'static str, nth: u64, held: bool },
+    BeforeStart,
+    AfterEnd,
+    Impossible,
+}
+
+/// Position p of frame k →  where the producer stands while the subscriber's step happens.
+///  session/task (two hooks h0,h1 per emission):  0 = before step 1 of frame k (= after h1 of k-1),
+///    1 = between the two steps (at h0 of k), 2 = after step 2 (at h1 of k; for the last frame and
+///    sub==snap: after the end of the stream).
+///  thread (enter, after_flush, cache.exit, then send): 0 = before the log append of frame k,
+///    1 = log written / sidecar not, 2 = sidecar written / not yet published, 3 = published.
+fn anchor(kind: Kind, c: &Calib, k: u64, pos: u8, both_here: bool) -> Anchor {
+    let last = k + 1 == c.n;
+    match kind {
+        Kind::Session | Kind::Task => match pos {
+            0 => {
+                if k == 0 {
+                    if kind == Kind::Session {
+                        Anchor::BeforeStart
+                    } else {
+                        Anchor::Impossible // a task id is only known once the task runs
+                    }
+                } else {
+                    Anchor::Hook { at: c.hooks[1].0, nth: k, held: c.hooks[1].1 }
+                }
+            }
+            1 => Anchor::Hook { at: c.hooks[0].0, nth: k + 1, held: c.hooks[0].1 },
+            _ => {
+                if both_here {
+                    if last {
+                        Anchor::AfterEnd
+                    } else {
+                        Anchor::Impossible // identical to (0,0) of frame k+1
+                    }
+                } else {
+                    Anchor::Hook { at: c.hooks[1].0, nth: k + 1, held: c.hooks[1].1 }
+                }
+            }
+        },
+        Kind::Thread => match pos {
+            0..=2 => Anchor::Hook { at: c.hooks[pos as usize].0, nth: k + 1, held: false },
+            _ => {
+                if last {
+                    Anchor::AfterEnd
+                } else if both_here {
+                    Anchor::Impossible // identical to (0,0) of frame k+1
+                } else {
+                    Anchor::Hook { at: c.hooks[0].0, nth: k + 2, held: false }
+                }
+            }
+        },
+    }
+}
+
+fn positions(kind: Kind) -> u8 {
+    match kind {
+        Kind::Thread => 4,
+        _ => 3,
+    }
+}
+
+struct Plan {
+    producer_rules: Vec<ParkRule>,
+    /// (at, nth) of the producer rule whose firing is the moment to launch the subscriber
+    launch_on: Option<(&'static str, u64)>,
+    sub_rule: Option<ParkRule>,
+    before_start: bool,
+    after_end: bool,
+    fire_done_point: bool,
+}
+
+fn plan(kind: Kind, c: &Calib, d: &Driven, pctx: &str, qctx: &str) -> Option<Plan> {
+    let same = d.sub == d.snap;
+    let a_sub = anchor(kind, c, d.k, d.sub, same);
+    let a_snap = anchor(kind, c, d.k, d.snap, same);
+    if a_sub == Anchor::Impossible || a_snap == Anchor::Impossible {
+        return None;
+    }
+    let mut p = Plan {
+        producer_rules: Vec::new(),
+        launch_on: None,
+        sub_rule: None,
+        before_start: false,
+        after_end: false,
+        fire_done_point: false,
+    };
+    let to = 1500;
+    match &a_sub {
+        Anchor::BeforeStart => p.before_start = true,
+        Anchor::AfterEnd => p.after_end = true,
+        Anchor::Hook { at, nth, held } => {
+            let until = if same && !*held { QN } else { QS };
+            let mut r = ParkRule::new(at, pctx, *nth, until, qctx, 1);
+            r.timeout_ms = to;
+            p.producer_rules.push(r);
+            p.launch_on = Some((at, *nth));
+        }
+        Anchor::Impossible => unreachable!(),
+    }
+    if !same {
+        match &a_snap {
+            Anchor::Hook { at, nth, held } => {
+                let mut sr = ParkRule::new(QS, qctx, 1, at, pctx, 1);
+                sr.timeout_ms = to;
+                p.sub_rule = Some(sr);
+                if !*held {
+                    let mut r = ParkRule::new(at, pctx, *nth, QN, qctx, 1);
+                    r.timeout_ms = to;
+                    p.producer_rules.push(r);
+                }
+            }
+            Anchor::AfterEnd => {
+                let mut sr = ParkRule::new(QS, qctx, 1, DONE_POINT, pctx, 1);
+                sr.timeout_ms = 4000;
+                p.sub_rule = Some(sr);
+                p.fire_done_point = true;
+            }
+            _ => return None,
+        }
+    }
+    // sched stops scanning its rule list at the first rule that parks: a later hit of the same
+    // point must be listed first or it would miss one hit.
+    p.producer_rules.sort_by(|a, b| b.nth.cmp(&a.nth));
+    Some(p)
+}
+
+pub struct DrivenOut {
+    pub realised: bool,
+    pub why_not: String,
+    pub id: String,
+    pub sub: Option<SubOut>,
+    pub log: Option<Vec<Value>>,
+    pub events: Vec<Ev>,
+}
+
+async fn run_driven(s: &Arc<Sched>, w: &World, variant: &Variant, c: &Calib, d: &Driven, grace_ms: u64) -> Result<DrivenOut, String> {
+    let kind = variant.kind;
+    s.reset();
+    s.record(true, &["session.emit.*", "task.emit.*", "server.stream.*", "cont.cache.exit", "log.append.after_flush", "rv.c06.*"]);
+    let mut p = Producer::prepare(&w, variant).await?;
+    // tasks: the id is unknown until the task runs; it is the only task of this engine
+    let pctx = p.id.clone().unwrap_or_default();
+    let Some(pl) = plan(kind, c, d, &pctx, &pctx) else {
+        return Err("impossible placement".into());
+    };
+    for r in &pl.producer_rules {
+        s.add_rule(r.clone());
+    }
+    let ctl = SubCtl::new(grace_ms);
+    let mut out = DrivenOut {
+        realised: true,
+        why_not: String::new(),
+        id: String::new(),
+        sub: None,
+        log: None,
+        events: Vec::new(),
+    };
+    let mut sub_task = None;
+    if pl.before_start {
+        let id = p.id.clone().ok_or("no id before start")?;
+        if let Some(sr) = &pl.sub_rule {
+            s.add_rule(sr.clone());
+        }
+        sub_task = Some(tokio::spawn(subscribe_and_read(w.app.clone(), kind, id, ctl.clone())));
+        let ok = if pl.sub_rule.is_some() {
+            wait_fired(s, QS, 1, Duration::from_secs(3)).await
+        } else {
+            let c2 = ctl.clone();
+            wait_for(Duration::from_secs(3), || if c2.joined.load(Ordering::SeqCst) { Some(()) } else { None })
+                .await
+                .is_some()
+        };
+        if !ok {
+            out.realised = false;
+            out.why_not = "subscriber did not reach its first step before the producer start".into();
+        }
+    }
+    let id = p.start(&w).await?;
+    out.id = id.clone();
+    if pl.after_end {
+        if !p.quiescent(&w, Duration::from_secs(10)).await {
+            out.realised = false;
+            out.why_not = "producer did not finish".into();
+        }
+        sub_task = Some(tokio::spawn(subscribe_and_read(w.app.clone(), kind, id.clone(), ctl.clone())));
+    } else if let Some((at, nth)) = pl.launch_on {
+        if wait_fired(s, at, nth, Duration::from_secs(4)).await {
+            if let Some(mut sr) = pl.sub_rule.clone() {
+                sr.at_ctx = id.clone();
+                s.add_rule(sr);
+            }
+            sub_task = Some(tokio::spawn(subscribe_and_read(w.app.clone(), kind, id.clone(), ctl.clone())));
+        } else {
+            out.realised = false;
+            out.why_not = format!("producer never reached hit {nth} of {at}");
+        }
+    }
+    let quiet = p.quiescent(&w, Duration::from_secs(10)).await;
+    if !quiet && out.realised {
+        out.realised = false;
+        out.why_not = "producer did not become quiescent within the watchdog".into();
+    }
+    if pl.fire_done_point {
+        rip_kernel::verif::point(DONE_POINT, &id);
+    }
+    // trailing appends of the same stream are over: read the log, publish the last seq
+    let log = w.stream_log(kind, &id);
+    ctl.finish(log.as_ref().and_then(|l| (l.len() as u64).checked_sub(1)));
+    if let Some(t) = sub_task {
+        match tokio::time::timeout(Duration::from_secs(20), t).await {
+            Ok(Ok(so)) => out.sub = Some(so),
+            _ => {
+                out.realised = false;
+                out.why_not = "subscriber task did not return".into();
+            }
+        }
+    }
+    let rules = s.rules();
+    s.release_all();
+    for r in &rules {
+        if r.timed_out {
+            out.realised = false;
+            out.why_not = format!("rendezvous timed out at {} (waiting for {})", r.at, r.until);
+        } else if !r.fired && out.realised {
+            out.realised = false;
+            out.why_not = format!("rule at {} nth {} never fired", r.at, r.nth);
+        }
+    }
+    out.log = log;
+    out.events = s.take_events();
+    s.reset();
+    Ok(out)
+}
+
+// ---------------------------------------------------------------------------------------------
+// entry point
+
+fn variants(cfg: &Cfg) -> Vec<Variant> {
+    let mut v = vec![bash_lines_session(4), write_session(), task_lines(3, "0.01"), thread_appends(6), bash_lines_session(12)];
+    if cfg.tier.pick(false, true) {
+        v.push(bash_lines_session(34));
+        v.push(task_lines(8, "0.008"));
+        v.push(thread_appends(20));
+    }
+    v
+}
+
+fn enumerate(vars: &[Variant], calibs: &[Option<Calib>]) -> Vec<Driven> {
+    let mut out = Vec::new();
+    for (vi, v) in vars.iter().enumerate() {
+        let Some(c) = &calibs[vi] else { continue };
+        let p = positions(v.kind);
+        for k in 0..c.n {
+            for sub in 0..p {
+                for snap in sub..p {
+                    let same = sub == snap;
+                    if anchor(v.kind, c, k, sub, same) == Anchor::Impossible
+                        || anchor(v.kind, c, k, snap, same) == Anchor::Impossible
+                    {
+                        continue;
+                    }
+                    out.push(Driven { variant: vi, k, sub, snap });
+                }
+            }
+        }
+    }
+    out
+}
+
+struct Ctx<'a> {
+    cfg: &'a Cfg,
+    s: Arc<Sched>,
+    rt: tokio::runtime::Runtime,
+    tail_notes: BTreeSet<String>,
+    /// reused engine (opening one costs ~100 ms) and the number of cases it served
+    world: Option<(World, u32)>,
+}
+
+impl Ctx<'_> {
+    fn world(&mut self) -> Result<(), String> {
+        let fresh = match &self.world {
+            Some((_, n)) => *n >= 40,
+            None => true,
+        };
+        if fresh {
+            self.world = None;
+            let _g = self.rt.enter();
+            self.world = Some((World::new()?, 0));
+        }
+        if let Some((_, n)) = self.world.as_mut() {
+            *n += 1;
+        }
+        Ok(())
+    }
+}
 
 pub fn run(cfg: &Cfg) -> i32 {
-    let mut r = Report::new("C06", "exploration", "not built");
-    r.fatal_inconclusive("monitor not built yet");
+    let mut r = Report::new(
+        "C06",
+        "fault_enumeration",
+        "A: driven joins — for every frame k of each producer variant (session tool envelopes, pipes task, thread \
+         appends) and every placement (sub,snap) of the subscriber's subscribe/snapshot steps relative to the \
+         producer's steps of frame k (session/task: 0 before publish, 1 between the emitter's two steps, 2 after \
+         both; thread: 0 before log append, 1 log written, 2 sidecar written, 3 published), forced with sched \
+         ParkRules; distinct = realised (kind, variant, k, sub, snap). B: stress — 1–32 subscribers attaching at \
+         random instants to concurrently producing sessions/tasks/threads with seeded noise at the emit/stream \
+         hooks; distinct = interleaving signature of cases with a mid-stream join. C: burst — producer emits more \
+         than the 16 384-slot channel holds while the subscriber does not read. Oracle per subscriber: seqs \
+         strictly increasing, no repeat, every frame JSON-equal to the log's, no seq missing below the highest \
+         delivered one; frames of the tail not delivered within the grace window are inconclusive, not violations.",
+    );
+    r.assume("hook points do not change behaviour beyond timing");
+    r.assume("positions whose hook is hit while the history lock is held let the snapshot run only after the lock is released (labelled held in evidence)");
+    r.assume("in-process router (tower oneshot): no socket buffering between the handler's stream and the reader");
+    r.max_samples = 6;
+    let mut cx = Ctx {
+        cfg,
+        s: sched(),
+        rt: runtime(12),
+        tail_notes: BTreeSet::new(),
+        world: None,
+    };
+    let _hb = Heartbeat::start(cx.rt.handle().clone());
+
+    if let Some(path) = &cfg.replay {
+        replay(&mut cx, &mut r, path);
+        cx.s.reset();
+        return r.finish(cfg);
+    }
+
+    // calibration (every shard does its own; cheap)
+    let vars = variants(cfg);
+    let mut calibs: Vec<Option<Calib>> = Vec::new();
+    let mut calib_note = Vec::new();
+    for v in &vars {
+        let c = cx.rt.block_on(calibrate(&cx.s, v));
+        match c {
+            Ok(c) => {
+                calib_note.push(json!({"variant": v.name, "kind": v.kind.name(), "frames": c.n,
+                    "hooks": c.hooks.iter().map(|(h, held)| json!({"hook": h, "snapshot_blocked_while_parked": held})).collect::<Vec<_>>()}));
+                calibs.push(Some(c));
+            }
+            Err(e) => {
+                r.inconclusive(&format!("calibration of {} failed: {e}", v.name));
+                calibs.push(None);
+            }
+        }
+    }
+    r.note("calibration", json!(calib_note));
+    if calibs.iter().all(|c| c.is_none()) {
+        r.fatal_inconclusive("no producer variant could be calibrated");
+        return r.finish(cfg);
+    }
+
+    // A. driven joins
+    let cases = enumerate(&vars, &calibs);
+    r.note("driven_cases_enumerated", json!(cases.len()));
+    let only_burst = cfg.has_flag("--only-burst");
+    let driven_budget = if only_burst { -1.0 } else { cfg.budget_s * 0.62 };
+    let mut done_all = true;
+    for (i, d) in cases.iter().enumerate() {
+        if !cfg.mine(i as u64) {
+            continue;
+        }
+        if r.elapsed() > driven_budget {
+            done_all = false;
+            r.note("driven_enumeration_cut_at_case", json!(i));
+            break;
+        }
+        driven_case(&mut cx, &mut r, &vars[d.variant], calibs[d.variant].as_ref().unwrap(), d);
+    }
+    r.note("driven_enumeration_complete_in_this_shard", json!(done_all));
+
+    // C. burst (before stress so that it always runs)
+    let base = cases.len() as u64;
+    let bursts: Vec<Kind> = cfg.tier.pick(vec![Kind::Thread], vec![Kind::Thread, Kind::Session, Kind::Task]);
+    for (j, k) in bursts.iter().enumerate() {
+        if cfg.mine(base + j as u64) {
+            burst_case(&mut cx, &mut r, *k);
+        }
+    }
+
+    // B. stress until the budget is used
+    let mut idx = base + 16;
+    let stress_cap = cfg.tier.pick(400u64, 1_000_000u64);
+    let mut n = 0;
+    while !only_burst && n < stress_cap && r.elapsed() < cfg.budget_s * 0.9 {
+        let i = idx;
+        idx += 1;
+        if !cfg.mine(i) {
+            continue;
+        }
+        n += 1;
+        let mut rng = cfg.case_rng(i);
+        stress_case(&mut cx, &mut r, i, &mut rng);
+    }
+    cx.s.reset();
+    cx.world = None;
+    let Ctx { rt, .. } = cx;
+    drop(rt);
     r.finish(cfg)
+}
+
+fn driven_tag(d: &Driven) -> String {
+    format!("driven_sub{}_snap{}", d.sub, d.snap)
+}
+
+fn driven_case(cx: &mut Ctx, r: &mut Report, v: &Variant, c: &Calib, d: &Driven) {
+    let grace = cx.cfg.tier.pick(250, 400);
+    let t0 = Instant::now();
+    if let Err(e) = cx.world() {
+        r.inconclusive(&format!("cannot open an engine: {e}"));
+        return;
+    }
+    let res = cx.rt.block_on(run_driven(&cx.s, &cx.world.as_ref().unwrap().0, v, c, d, grace));
+    if !matches!(&res, Ok(o) if o.realised) {
+        cx.world = None; // leftovers of an unrealised schedule must not leak into the next case
+    }
+    if std::env::var("RV_C06_TIMING").is_ok() {
+        eprintln!("driven {}/{} k={} ({},{}) {:?}", v.kind.name(), v.name, d.k, d.sub, d.snap, t0.elapsed());
+    }
+    let kind = v.kind;
+    let k = kind.name();
+    let out = match res {
+        Ok(o) => o,
+        Err(e) => {
+            r.inconclusive(&format!("driven {k}/{} k={} ({},{}): {e}", v.name, d.k, d.sub, d.snap));
+            return;
+        }
+    };
+    r.eval();
+    r.count(&format!("driven_{k}_cases"), 1);
+    if !out.realised {
+        r.count("driven_not_realised", 1);
+        r.inconclusive(&format!(
+            "driven {k}/{} k={} ({},{}): schedule not realised: {}",
+            v.name, d.k, d.sub, d.snap, out.why_not
+        ));
+        return;
+    }
+    let (Some(sub), Some(log)) = (&out.sub, &out.log) else {
+        r.inconclusive(&format!("driven {k}/{} k={}: no subscriber output or log stream not 0,1,2,…", v.name, d.k));
+        return;
+    };
+    if sub.status != 200 {
+        r.inconclusive(&format!("driven {k}/{} k={} ({},{}): GET returned {}", v.name, d.k, d.sub, d.snap, sub.status));
+        return;
+    }
+    r.count("driven_realised", 1);
+    r.count(&format!("driven_realised_p{}{}", d.sub, d.snap), 1);
+    r.distinct_str(&format!("driven/{k}/{}/k{}/{}{}", v.name, d.k, d.sub, d.snap));
+    let ver = compare(&out.id, &sub.frames, log);
+    r.count("frames_received", ver.received as u64);
+    r.count("frames_compared_with_log", (ver.received - ver.not_in_log.len()) as u64);
+    r.count("subscribers", 1);
+    // frame index k of the producer → seq in the stream
+    let seq_k = if kind == Kind::Thread { (log.len() as u64 + d.k).saturating_sub(c.n) } else { d.k };
+    let near = [format!(" {}", seq_k), format!(" {}", seq_k.wrapping_sub(1)), format!(" {}", seq_k + 1)];
+    let sched_trace: Vec<String> = out
+        .events
+        .iter()
+        .filter(|e| e.point.starts_with("server.stream") || e.point.starts_with("rv.") || near.iter().any(|n| e.ctx.ends_with(n.as_str())))
+        .take(40)
+        .map(|e| format!("{}:{}@t{} seq={}", e.clock, e.point, e.thread, e.ctx.rsplit(' ').next().filter(|x| x.len() < 8).unwrap_or("-")))
+        .collect();
+    let witness = json!({
+        "phase": "driven", "kind": k, "variant": v.name, "k": d.k, "sub": d.sub, "snap": d.snap,
+        "hooks": c.hooks.iter().map(|(h, held)| json!([h, held])).collect::<Vec<_>>(),
+        "log_frames": log.len(), "received_seqs": sub.frames.iter().filter_map(|f| f.get("seq").and_then(|x| x.as_u64())).collect::<Vec<_>>(),
+        "lost": short(&ver.lost), "schedule": sched_trace,
+    });
+    let tag = driven_tag(d);
+    report_common(r, kind, &tag, sub, &ver, &witness);
+    if !ver.lost.is_empty() {
+        let between_send_and_record = kind != Kind::Thread
+            && d.sub == 1
+            && d.snap == 1
+            && c.hooks[0].0.ends_with("after_send")
+            && !c.hooks[0].1
+            && ver.lost == vec![seq_k];
+        if between_send_and_record {
+            r.count(&format!("join_loss_{k}"), 1);
+            r.violation(
+                &format!("C06/join_loss/{k}/subscribe+snapshot_between_send_and_record"),
+                &format!(
+                    "{k} stream: a subscriber whose subscribe and snapshot both fall between the emitter's \
+                     broadcast send and its push into the history buffer never receives that frame (later seqs are delivered)"
+                ),
+                witness.clone(),
+            );
+        } else {
+            r.violation(
+                &format!("C06/frame_lost/{k}/{tag}"),
+                &format!("{k} stream: seq {:?} never delivered although a later seq was (frame k={}, placement sub={} snap={})", short(&ver.lost), d.k, d.sub, d.snap),
+                witness.clone(),
+            );
+        }
+    } else if ver.tail_missing > 0 {
+        r.count("tail_not_delivered_within_grace", 1);
+        let key = format!("{k} ({},{}) last_frame={}", d.sub, d.snap, d.k + 1 == c.n);
+        if cx.tail_notes.insert(key.clone()) {
+            r.inconclusive(&format!(
+                "driven {k}/{} k={} placement {key}: join completed, producer quiescent, {} frame(s) at the end of the \
+                 stream not delivered within {grace} ms and no later frame exists to prove a gap",
+                v.name, d.k, ver.tail_missing
+            ));
+        }
+    } else if ver.clean() {
+        r.count("subscribers_exactly_once_in_order", 1);
+    }
+    if r.samples.len() < 3 {
+        r.sample(witness);
+    }
+}
+
+fn replay(cx: &mut Ctx, r: &mut Report, path: &std::path::Path) {
+    let doc: Value = std::fs::read(path).ok().and_then(|b| serde_json::from_slice(&b).ok()).unwrap_or(Value::Null);
+    let w = &doc["witness"];
+    match w["phase"].as_str().unwrap_or("") {
+        "driven" => {
+            let mut vars = variants(cx.cfg);
+            // thorough variants may be named in a witness replayed at quick tier
+            for extra in [bash_lines_session(12), bash_lines_session(34), task_lines(8, "0.008"), thread_appends(20)] {
+                if !vars.iter().any(|v| v.name == extra.name) {
+                    vars.push(extra);
+                }
+            }
+            let name = w["variant"].as_str().unwrap_or("");
+            let Some(v) = vars.iter().find(|v| v.name == name).cloned() else {
+                r.fatal_inconclusive("replay: unknown variant");
+                return;
+            };
+            match cx.rt.block_on(calibrate(&cx.s, &v)) {
+                Ok(c) => {
+                    let d = Driven {
+                        variant: 0,
+                        k: w["k"].as_u64().unwrap_or(0),
+                        sub: w["sub"].as_u64().unwrap_or(0) as u8,
+                        snap: w["snap"].as_u64().unwrap_or(0) as u8,
+                    };
+                    driven_case(cx, r, &v, &c, &d);
+                }
+                Err(e) => r.fatal_inconclusive(&format!("replay: calibration failed: {e}")),
+            }
+        }
+        "stress" => {
+            let i = w["index"].as_u64().unwrap_or(0);
+            let seed = doc["seed"].as_u64().unwrap_or(cx.cfg.seed);
+            let mut rng = Rng::derive(seed, i);
+            r.note("replay_note", json!("noise-driven schedule: reproducible in probability only; re-running the same generated case"));
+            for _ in 0..5 {
+                let mut g = rng.clone();
+                stress_case(cx, r, i, &mut g);
+            }
+            let _ = rng.next_u64();
+        }
+        "burst" => {
+            let k = match w["kind"].as_str().unwrap_or("") {
+                "session" => Kind::Session,
+                "task" => Kind::Task,
+                _ => Kind::Thread,
+            };
+            burst_case(cx, r, k);
+        }
+        _ => r.fatal_inconclusive("replay: witness has no phase"),
+    }
+}
+
+// ---------------------------------------------------------------------------------------------
+// C. burst: more frames than the channel holds while the subscriber does not read
+
+fn burst_case(cx: &mut Ctx, r: &mut Report, kind: Kind) {
+    let k = kind.name();
+    let s = cx.s.clone();
+    s.reset();
+    let res: Result<(String, SubOut, Option<Vec<Value>>, u64), String> = cx.rt.block_on(async {
+        let w = World::new()?;
+        let extra = 700u64;
+        let variant = match kind {
+            Kind::Thread => thread_appends((CHANNEL_CAPACITY + extra) as usize),
+            Kind::Session => Variant {
+                kind,
+                name: "burst".into(),
+                text: json!({"tool":"bash","args":{"command": format!("seq 1 {}", CHANNEL_CAPACITY + extra), "max_bytes": 16_000_000}}).to_string(),
+                appends: 0,
+            },
+            Kind::Task => Variant {
+                kind,
+                name: "burst".into(),
+                // one write(2) per line, then a short busy loop so that the reader drains each line on its own
+                text: "i=0; while [ $i -lt 48000 ]; do echo $i; i=$((i+1)); for j in {1..150}; do :; done; done".to_string(),
+                appends: 0,
+            },
+        };
+        let mut p = Producer::prepare(&w, &variant).await?;
+        let ctl = SubCtl::new(600);
+        ctl.pause.store(true, Ordering::SeqCst);
+        let mut joined_at_frames = 0u64;
+        let sub;
+        match kind {
+            Kind::Task => {
+                let id = p.start(&w).await?;
+                sub = tokio::spawn(subscribe_and_read(w.app.clone(), kind, id, ctl.clone()));
+            }
+            _ => {
+                let id = p.id.clone().unwrap();
+                if kind == Kind::Thread {
+                    let st = w.app.store();
+                    for i in 0..3 {
+                        let _ = st.append_message(&id, "rv".into(), "c06".into(), format!("pre{i}"));
+                    }
+                    joined_at_frames = 4;
+                }
+                sub = tokio::spawn(subscribe_and_read(w.app.clone(), kind, id, ctl.clone()));
+                let c2 = ctl.clone();
+                wait_for(Duration::from_secs(5), || if c2.joined.load(Ordering::SeqCst) { Some(()) } else { None }).await;
+                p.start(&w).await?;
+            }
+        }
+        let id = p.id.clone().unwrap_or_default();
+        if !p.quiescent(&w, Duration::from_secs(120)).await {
+            ctl.pause.store(false, Ordering::SeqCst);
+            ctl.finish(None);
+            let _ = sub.await;
+            return Err("burst producer did not finish within the watchdog".to_string());
+        }
+        let log = w.log_frames().and_then(|f| log_stream(&f, kind, &id));
+        ctl.finish(log.as_ref().and_then(|l| (l.len() as u64).checked_sub(1)));
+        ctl.pause.store(false, Ordering::SeqCst);
+        let so = tokio::time::timeout(Duration::from_secs(120), sub)
+            .await
+            .map_err(|_| "burst subscriber did not return".to_string())?
+            .map_err(|e| format!("join: {e}"))?;
+        Ok((id, so, log, joined_at_frames))
+    });
+    s.reset();
+    let (id, sub, log, joined_at) = match res {
+        Ok(x) => x,
+        Err(e) => {
+            r.inconclusive(&format!("burst {k}: {e}"));
+            return;
+        }
+    };
+    let Some(log) = log else {
+        r.inconclusive(&format!("burst {k}: log stream unreadable"));
+        return;
+    };
+    r.eval();
+    r.count(&format!("burst_{k}_cases"), 1);
+    r.count(&format!("burst_{k}_frames_emitted"), log.len() as u64);
+    let ver = compare(&id, &sub.frames, &log);
+    r.count("frames_received", ver.received as u64);
+    r.count("frames_compared_with_log", (ver.received - ver.not_in_log.len()) as u64);
+    r.count("subscribers", 1);
+    let emitted_after_join = (log.len() as u64).saturating_sub(joined_at);
+    let witness = json!({
+        "phase": "burst", "kind": k, "frames_in_log": log.len(), "frames_received": ver.received,
+        "emitted_while_subscriber_paused": emitted_after_join, "channel_capacity": CHANNEL_CAPACITY,
+        "lost_count": ver.lost.len(), "first_lost": ver.lost.first(), "last_lost": ver.lost.last(),
+        "tail_missing": ver.tail_missing,
+    });
+    report_common(r, kind, "burst", &sub, &ver, &witness);
+    if emitted_after_join <= CHANNEL_CAPACITY {
+        r.count(&format!("burst_{k}_below_channel_capacity"), 1);
+        r.note(
+            &format!("burst_{k}_note"),
+            json!(format!("producer emitted only {} frames (<= channel capacity): lag path not reached", log.len())),
+        );
+    } else {
+        r.distinct_str(&format!("burst/{k}"));
+    }
+    if !ver.lost.is_empty() {
+        let contiguous = ver.lost.windows(2).all(|w| w[1] == w[0] + 1);
+        if emitted_after_join > CHANNEL_CAPACITY && contiguous && ver.lost[0] >= joined_at.saturating_sub(1) {
+            r.count(&format!("lag_loss_{k}_frames"), ver.lost.len() as u64);
+            r.violation(
+                &format!("C06/lag_loss/{k}/slow_subscriber_beyond_channel_capacity"),
+                &format!(
+                    "{k} stream: a subscriber that falls more than {CHANNEL_CAPACITY} frames behind silently loses the \
+                     overwritten frames (handler maps the broadcast Lagged error to nothing) and then continues with later seqs"
+                ),
+                witness.clone(),
+            );
+        } else {
+            r.violation(
+                &format!("C06/frame_lost/{k}/burst"),
+                &format!("{k} stream: {} seqs never delivered although later seqs were", ver.lost.len()),
+                witness.clone(),
+            );
+        }
+    } else if ver.tail_missing > 0 {
+        r.inconclusive(&format!("burst {k}: {} frames at the end not delivered within the grace window", ver.tail_missing));
+    } else if ver.clean() {
+        r.count("subscribers_exactly_once_in_order", 1);
+    }
+    r.sample(witness);
+}
+
+// ---------------------------------------------------------------------------------------------
+// B. stress
+
+struct Target {
+    kind: Kind,
+    id: Arc<std::sync::Mutex<Option<String>>>,
+    ctl: Arc<SubCtl>,
+}
+
+fn stress_case(cx: &mut Ctx, r: &mut Report, idx: u64, rng: &mut Rng) {
+    let s = cx.s.clone();
+    s.reset();
+    s.record(true, &["session.emit.*", "task.emit.*", "server.stream.*", "cont.cache.exit"]);
+    let amp = |rng: &mut Rng| [0u64, 150, 600, 2000][rng.usize(4)];
+    let noise = [
+        ("session.emit.after_send", amp(rng)),
+        ("session.emit.after_record", amp(rng) / 2),
+        ("task.emit.after_send", amp(rng)),
+        ("task.emit.after_record", amp(rng) / 2),
+        ("server.stream.subscribed", amp(rng)),
+        ("server.stream.snapshotted", amp(rng) / 2),
+        ("log.append.after_flush", amp(rng) / 4),
+        ("cont.cache.exit", amp(rng) / 2),
+    ];
+    s.set_noise(rng.next_u64(), &noise);
+    let n_sess = rng.usize(4);
+    let n_task = rng.usize(3);
+    let mut n_thr = rng.usize(3);
+    if n_sess + n_task + n_thr == 0 {
+        n_thr = 1;
+    }
+    let n_posts = if n_thr > 0 { rng.usize(3) } else { 0 };
+    let n_subs = match rng.below(4) {
+        0 => 1,
+        1 => 2 + rng.usize(3),
+        2 => 5 + rng.usize(8),
+        _ => 13 + rng.usize(20),
+    };
+    let grace = cx.cfg.tier.pick(300, 500);
+    let seed = rng.next_u64();
+    let shape = json!({"sessions": n_sess, "tasks": n_task, "threads": n_thr, "thread_posts": n_posts, "subscribers": n_subs,
+        "noise_us": noise.iter().map(|(p, u)| json!([p, u])).collect::<Vec<_>>()});
+
+    type SubRes = Vec<(Kind, String, SubOut)>;
+    type Logs = BTreeMap<(Kind, String), Option<Vec<Value>>>;
+    if let Err(e) = cx.world() {
+        r.inconclusive(&format!("cannot open an engine: {e}"));
+        return;
+    }
+    let w = &cx.world.as_ref().unwrap().0;
+    let res: Result<(SubRes, Logs, bool), String> = cx.rt.block_on(async {
+        let mut rng = Rng::new(seed);
+        let app = w.app.clone();
+        let mut targets: Vec<Target> = Vec::new();
+        let mk = |kind: Kind, id: Option<String>| Target { kind, id: Arc::new(std::sync::Mutex::new(id)), ctl: SubCtl::new(grace) };
+        // sessions (ids known before they start)
+        let mut sess_ids = Vec::new();
+        for _ in 0..n_sess {
+            let (st, v) = app.json("POST", "/sessions", None).await;
+            if st != 201 {
+                return Err("POST /sessions failed".into());
+            }
+            let id = v["session_id"].as_str().unwrap_or("").to_string();
+            targets.push(mk(Kind::Session, Some(id.clone())));
+            sess_ids.push(id);
+        }
+        // threads
+        let mut thr_ids = Vec::new();
+        if n_thr > 0 {
+            let st = app.store();
+            let c0 = st.ensure_default().map_err(|e| e.to_string())?;
+            thr_ids.push(c0.clone());
+            if n_thr > 1 {
+                if let Ok((child, _, _)) = st.branch(&c0, Some("b".into()), None, None, "rv".into(), "c06".into()) {
+                    thr_ids.push(child);
+                }
+            }
+            for t in &thr_ids {
+                targets.push(mk(Kind::Thread, Some(t.clone())));
+            }
+        }
+        // tasks start now (their id is the result of starting them)
+        let mut task_ids = Vec::new();
+        for j in 0..n_task {
+            let lines = 5 + rng.usize(16);
+            let ms = 1 + rng.usize(5);
+            let cmd = format!("for i in $(seq 1 {lines}); do echo t{j}o$i; echo t{j}e$i 1>&2; sleep 0.00{ms}; done");
+            let (st, v) = app.json("POST", "/tasks", Some(&json!({"tool":"bash","args":{"command":cmd}}))).await;
+            if st != 201 {
+                return Err("POST /tasks failed".into());
+            }
+            let id = v["task_id"].as_str().unwrap_or("").to_string();
+            targets.push(mk(Kind::Task, Some(id.clone())));
+            task_ids.push(id);
+        }
+        // run sessions of thread posts: id known once posted
+        let post_slots: Vec<usize> = (0..n_posts)
+            .map(|_| {
+                targets.push(mk(Kind::Session, None));
+                targets.len() - 1
+            })
+            .collect();
+        let horizon_us = 60_000u64;
+        // producers
+        let mut joins: Vec<tokio::task::JoinHandle<()>> = Vec::new();
+        for (i, id) in sess_ids.iter().enumerate() {
+            let app = app.clone();
+            let id = id.clone();
+            let delay = rng.below(horizon_us / 2);
+            let input = if rng.chance(1, 5) {
+                json!({"tool":"write","args":{"path": format!("s{i}.txt"), "content": "x"}}).to_string()
+            } else {
+                let m = 1 + rng.usize(35);
+                json!({"tool":"bash","args":{"command": format!("for i in $(seq 1 {m}); do echo s{i}l$i; done")}}).to_string()
+            };
+            joins.push(tokio::spawn(async move {
+                tokio::time::sleep(Duration::from_micros(delay)).await;
+                let _ = app.json("POST", &format!("/sessions/{id}/input"), Some(&json!({"input": input}))).await;
+            }));
+        }
+        let mut actors = Vec::new();
+        for t in &thr_ids {
+            for a in 0..(1 + rng.usize(2)) {
+                let st = app.store();
+                let t = t.clone();
+                let n = 10 + rng.usize(31);
+                let pause = rng.below(1500);
+                actors.push(tokio::task::spawn_blocking(move || {
+                    for i in 0..n {
+                        let _ = st.append_message(&t, format!("a{a}"), "c06".into(), format!("m{a}-{i}"));
+                        if pause > 0 {
+                            std::thread::sleep(Duration::from_micros(pause));
+                        }
+                    }
+                }));
+            }
+        }
+        let posted = Arc::new(AtomicU64::new(0));
+        for (pi, slot) in post_slots.iter().enumerate() {
+            let app = app.clone();
+            let t = thr_ids[rng.usize(thr_ids.len())].clone();
+            let delay = rng.below(horizon_us / 2);
+            let slot_id = targets[*slot].id.clone();
+            let posted = posted.clone();
+            let m = 1 + rng.usize(20);
+            let content = json!({"tool":"bash","args":{"command": format!("for i in $(seq 1 {m}); do echo p{pi}l$i; done")}}).to_string();
+            joins.push(tokio::spawn(async move {
+                tokio::time::sleep(Duration::from_micros(delay)).await;
+                let (st, v) = app.json("POST", &format!("/threads/{t}/messages"), Some(&json!({"content": content}))).await;
+                if st == 202 {
+                    *slot_id.lock().unwrap() = v["session_id"].as_str().map(|x| x.to_string());
+                    posted.fetch_add(1, Ordering::SeqCst);
+                } else {
+                    *slot_id.lock().unwrap() = Some(String::new());
+                }
+            }));
+        }
+        // subscribers
+        let mut subs = Vec::new();
+        for _ in 0..n_subs {
+            let ti = rng.usize(targets.len());
+            let kind = targets[ti].kind;
+            let idc = targets[ti].id.clone();
+            let ctl = targets[ti].ctl.clone();
+            let delay = rng.below(horizon_us);
+            let app = app.clone();
+            subs.push(tokio::spawn(async move {
+                tokio::time::sleep(Duration::from_micros(delay)).await;
+                let mut id = None;
+                for _ in 0..2000 {
+                    if let Some(x) = idc.lock().unwrap().clone() {
+                        id = Some(x);
+                        break;
+                    }
+                    tokio::time::sleep(Duration::from_millis(1)).await;
+                }
+                let id = id.unwrap_or_default();
+                if id.is_empty() {
+                    return (kind, id, SubOut::default());
+                }
+                let so = subscribe_and_read(app, kind, id.clone(), ctl).await;
+                (kind, id, so)
+            }));
+        }
+        // quiescence
+        for j in joins {
+            let _ = j.await;
+        }
+        let mut quiet = true;
+        for a in actors {
+            quiet &= tokio::time::timeout(Duration::from_secs(20), a).await.is_ok();
+        }
+        let mut snaps: Vec<std::path::PathBuf> = Vec::new();
+        for id in &sess_ids {
+            snaps.push(w.store.data.join("snapshots").join(format!("{id}.json")));
+        }
+        for id in &task_ids {
+            snaps.push(w.store.data.join("task_snapshots").join(format!("{id}.json")));
+        }
+        let mut run_ids = Vec::new();
+        for slot in &post_slots {
+            if let Some(id) = targets[*slot].id.lock().unwrap().clone() {
+                if !id.is_empty() {
+                    snaps.push(w.store.data.join("snapshots").join(format!("{id}.json")));
+                    run_ids.push(id);
+                }
+            }
+        }
+        quiet &= wait_for(Duration::from_secs(20), || if snaps.iter().all(|p| p.exists()) { Some(()) } else { None })
+            .await
+            .is_some();
+        // run_ended frames on the threads follow the snapshot
+        let lp = w.store.log_path();
+        quiet &= wait_for(Duration::from_secs(10), || {
+            if run_ids.is_empty() {
+                return Some(());
+            }
+            let text = std::fs::read(&lp).unwrap_or_default();
+            let text = String::from_utf8_lossy(&text);
+            let ended = |id: &String| text.lines().any(|l| l.contains("\"type\":\"continuity_run_ended\"") && l.contains(id.as_str()));
+            if run_ids.iter().all(ended) {
+                Some(())
+            } else {
+                None
+            }
+        })
+        .await
+        .is_some();
+        let bytes = w.store.log_bytes();
+        let mut logs: Logs = BTreeMap::new();
+        for t in &targets {
+            let id = t.id.lock().unwrap().clone().unwrap_or_default();
+            if id.is_empty() {
+                t.ctl.finish(None);
+                continue;
+            }
+            let l = stream_from_bytes(&bytes, t.kind, &id);
+            t.ctl.finish(l.as_ref().and_then(|l| (l.len() as u64).checked_sub(1)));
+            logs.insert((t.kind, id), l);
+        }
+        let mut out = Vec::new();
+        for sres in subs {
+            if let Ok(Ok(x)) = tokio::time::timeout(Duration::from_secs(30), sres).await {
+                out.push(x);
+            } else {
+                quiet = false;
+            }
+        }
+        Ok((out, logs, quiet))
+    });
+    let events = s.take_events();
+    s.reset();
+    let (subs, logs, quiet) = match res {
+        Ok(x) => x,
+        Err(e) => {
+            cx.world = None;
+            r.inconclusive(&format!("stress case {idx}: {e}"));
+            return;
+        }
+    };
+    if !quiet {
+        cx.world = None;
+    }
+    r.eval();
+    r.count("stress_cases", 1);
+    if !quiet {
+        r.inconclusive(&format!("stress case {idx}: producers/subscribers did not quiesce within the watchdog"));
+    }
+    // clocks of the emit hooks per stream: (after_record clock by seq), min/max emit clock
+    let mut rec_clock: HashMap<(String, u64), u64> = HashMap::new();
+    let mut span: HashMap<String, (u64, u64)> = HashMap::new();
+    let mut subs_clock: HashMap<String, Vec<u64>> = HashMap::new();
+    for e in &events {
+        if e.point.starts_with("server.stream.subscribed") {
+            subs_clock.entry(e.ctx.clone()).or_default().push(e.clock);
+            continue;
+        }
+        if e.point.starts_with("server.stream") {
+            continue;
+        }
+        let mut it = e.ctx.rsplitn(2, ' ');
+        let seq = it.next().and_then(|x| x.parse::<u64>().ok());
+        let sid = it.next().unwrap_or("").to_string();
+        if let Some(seq) = seq {
+            if e.point.ends_with("after_record") {
+                rec_clock.insert((sid.clone(), seq), e.clock);
+            }
+            let sp = span.entry(sid).or_insert((e.clock, e.clock));
+            sp.0 = sp.0.min(e.clock);
+            sp.1 = sp.1.max(e.clock);
+        }
+    }
+    let mut mid_join = false;
+    for (sid, clocks) in &subs_clock {
+        if let Some((lo, hi)) = span.get(sid) {
+            let m = clocks.iter().filter(|c| **c > *lo && **c < *hi).count() as u64;
+            if m > 0 {
+                mid_join = true;
+                r.count("stress_mid_stream_joins", m);
+            }
+        }
+    }
+    if mid_join {
+        r.distinct(Sched::interleaving_signature(&events));
+    }
+    r.count("stress_hook_events", events.len() as u64);
+    for (kind, id, sub) in &subs {
+        if id.is_empty() {
+            continue;
+        }
+        let k = kind.name();
+        r.count("subscribers", 1);
+        r.count(&format!("stress_{k}_subscribers"), 1);
+        if sub.status != 200 {
+            r.count(&format!("stress_get_status_{}", sub.status), 1);
+            continue;
+        }
+        let Some(Some(log)) = logs.get(&(*kind, id.clone())) else {
+            r.inconclusive(&format!("stress case {idx}: log of {k} stream not 0,1,2,…"));
+            continue;
+        };
+        let ver = compare(id, &sub.frames, log);
+        r.count("frames_received", ver.received as u64);
+        r.count("frames_compared_with_log", (ver.received - ver.not_in_log.len()) as u64);
+        let witness = json!({"phase": "stress", "index": idx, "kind": k, "shape": shape, "log_frames": log.len(),
+            "received": ver.received, "lost": short(&ver.lost), "dup": short(&ver.dup), "tail_missing": ver.tail_missing});
+        report_common(r, *kind, "stress", sub, &ver, &witness);
+        if !ver.lost.is_empty() {
+            // known mechanism: exactly the join frame is lost, and some subscribe of this stream fell
+            // between after_record(k-1) and after_record(k)
+            let attributed = *kind != Kind::Thread && ver.lost.len() == 1 && {
+                let kk = ver.lost[0];
+                let hi = rec_clock.get(&(id.clone(), kk)).copied();
+                let lo = if kk == 0 { Some(0) } else { rec_clock.get(&(id.clone(), kk - 1)).copied() };
+                match (lo, hi, subs_clock.get(id)) {
+                    (Some(lo), Some(hi), Some(cs)) => cs.iter().any(|c| *c > lo && *c < hi),
+                    _ => false,
+                }
+            };
+            if attributed {
+                r.count(&format!("join_loss_{k}"), 1);
+                r.violation(
+                    &format!("C06/join_loss/{k}/subscribe+snapshot_between_send_and_record"),
+                    &format!("{k} stream: the frame being emitted while a subscriber joined was never delivered to it (later seqs were)"),
+                    witness.clone(),
+                );
+            } else {
+                r.violation(
+                    &format!("C06/frame_lost/{k}/stress"),
+                    &format!("{k} stream: seq {:?} never delivered although a later seq was", short(&ver.lost)),
+                    witness.clone(),
+                );
+            }
+        } else if ver.tail_missing > 0 {
+            r.count("tail_not_delivered_within_grace", 1);
+            let key = format!("stress {k}");
+            if cx.tail_notes.insert(key) {
+                r.inconclusive(&format!(
+                    "stress case {idx}: {k} subscriber connected, producers quiescent, {} frame(s) at the end not delivered within the grace window (no later frame to prove a gap)",
+                    ver.tail_missing
+                ));
+            }
+        } else if ver.clean() {
+            r.count("subscribers_exactly_once_in_order", 1);
+        }
+    }
+    if r.samples.len() < 5 {
+        r.sample(json!({"phase": "stress", "index": idx, "shape": shape, "subscribers_judged": subs.len(), "hook_events": events.len()}));
+    }
 }
